@@ -159,7 +159,7 @@ static int32_t cb_msg(qb_ipcs_connection_t *c, void *data, size_t size)
 		if (q->arg1 == QB_IPCS_RATE_OFF || q->arg1 == QB_IPCS_RATE_OFF_2) {
 			/* flow control keeps every client from sending, also the command that would lift it: the
 			 * server lifts it itself a little later */
-			qb_loop_timer_handle th; qb_loop_timer_add(loop, QB_LOOP_HIGH, (vp_chance(&srng, 1, 4) ? 150 + vp_u(&srng, 250) : 2 + vp_u(&srng, 20)) * 1000000ULL, NULL, restore_rate, &th);   /* sometimes flow control stays on for a while: events queued meanwhile must still reach the client */
+			qb_loop_timer_handle th; qb_loop_timer_add(loop, QB_LOOP_HIGH, (q->arg2 ? (q->arg2 > 5000 ? 5000 : q->arg2) : vp_chance(&srng, 1, 4) ? 150 + vp_u(&srng, 250) : 2 + vp_u(&srng, 20)) * 1000000ULL, NULL, restore_rate, &th);   /* sometimes flow control stays on for a while: events queued meanwhile must still reach the client */
 		}
 		enqueue(sc, 0, seq, q->arg1, 0, NULL, 0, TP_RES_MIN); break;
 	case OP_DISCONNECT_ME: bed_log(L_SRV_NOTE, (uint64_t)(uintptr_t)c, seq, 0, 0, 0, "disconnect-in-msg"); qb_ipcs_disconnect(c); return 0;
